@@ -535,6 +535,34 @@ func runC16(c *Ctx) {
 		if len(cd.stamps) > 0 && len(j.s.stamps) == 0 {
 			c.R.Fail("accepted-disallowed:"+j.s.it.Regime+":stamps", fmt.Sprintf("%s: correction accepted although the source carries none of the required stamps %v", j.s.it.Rel, cd.stamps), wit())
 		}
+		// an extension whose published key names the other kind of note (…credit… on a
+		// debit note, …debit… on a credit note) does not meet what that type requires
+		if len(j.o.Ext) > 0 && (j.o.Type == "credit-note" || j.o.Type == "debit-note") {
+			mine, other := "credit", "debit"
+			if j.o.Type == "debit-note" {
+				mine, other = "debit", "credit"
+			}
+			hasMine, hasOther := false, false
+			for k := range j.o.Ext {
+				if strings.Contains(k, mine) {
+					hasMine = true
+				}
+				if strings.Contains(k, other) && !strings.Contains(k, mine) {
+					hasOther = true
+				}
+			}
+			if hasOther && !hasMine {
+				needsMine := false
+				for e := range cd.extensions {
+					if strings.Contains(e, mine) && !strings.Contains(e, other) {
+						needsMine = true
+					}
+				}
+				if needsMine {
+					c.R.Fail("accepted-disallowed:"+j.s.it.Regime+":ext-of-other-type", fmt.Sprintf("%s: a %s was accepted with only the extension(s) %v, although the tables define a separate extension for that type", j.s.it.Rel, j.o.Type, j.o.Ext), wit())
+				}
+			}
+		}
 		if _, bad := j.o.Ext["zz-undefined-ext"]; bad {
 			c.R.Fail("accepted-disallowed:"+j.s.it.Regime+":ext", fmt.Sprintf("%s: correction with an undefined extension key accepted", j.s.it.Rel), wit())
 		}
